@@ -4,7 +4,7 @@
    stdout: one line per request:   <outcome> wf=<0|1> noasg=<0|1>
            outcome of Cmp_model.cmp_run a b; wf/noasg = wf_namedb / no_asgb of a.
    Token grammar (see harness/cmp_canon.py, which prints it):
-     nv    := "N" name oid indexed top nlibs lib*
+     nv    := "N" name oid top nlibs lib*
      top   := "T0" | "T1" inst
      inst  := name oid ref props
      ref   := "R0" | "R1" name name
@@ -105,17 +105,16 @@ let read_nv () =
   (match next () with "N" -> () | t -> failwith ("expected N, got " ^ t));
   let name = oname_of_tok (next ()) in
   let oid = oname_of_tok (next ()) in
-  let ix = (next () = "1") in
   let top = match next () with
     | "T0" -> None
     | "T1" -> Some (read_inst ())
     | t -> failwith ("bad top " ^ t) in
   let nl = next_int () in let libs = times nl read_lib in
-  { n_name = name; n_oid = oid; n_top = top; n_libs = libs; n_indexed = ix }
+  { n_name = name; n_oid = oid; n_top = top; n_libs = libs }
 
 let string_of_outcome = function
   | Accept -> "accept" | Reject -> "reject" | StopIter -> "stopiteration" | IndexErr -> "indexerror"
-  | KeyErr -> "keyerror" | AttrErr -> "attributeerror" | Ill -> "ill"
+  | KeyErr -> "keyerror" | AttrErr -> "attributeerror" | TypeErr -> "typeerror" | Ill -> "ill"
 
 let () =
   try
